@@ -123,6 +123,22 @@ LIBFRAMES_SKIP = {"touch", "pthread_mutex_lock", "pthread_mutex_unlock", "pthrea
                   "write", "read", "select", "close", "is_notify_pipe", "is_client_sock"}
 
 
+def run_harness(h, script, timeout=200):
+    """one schedule of one scenario on the real code -> (rc, stdout, stderr); the sanitizer report is
+    kept whole (the classification of known defects reads its stacks)"""
+    import subprocess
+    e = dict(os.environ)
+    e["ASAN_OPTIONS"] = "detect_leaks=1:abort_on_error=0:print_legend=0:allocator_may_return_null=1"
+    e["UBSAN_OPTIONS"] = "print_stacktrace=1"
+    try:
+        r = subprocess.run([h], input=script, stdout=subprocess.PIPE, stderr=subprocess.PIPE, text=True,
+                           timeout=timeout, env=e, errors="replace")
+        return r.returncode, r.stdout, r.stderr[:30000]
+    except subprocess.TimeoutExpired as ex:
+        so = ex.stdout.decode(errors="replace") if isinstance(ex.stdout, bytes) else (ex.stdout or "")
+        return 124, so, "TIMEOUT after %ss" % timeout
+
+
 def parse(out):
     evs, res = [], []
     for l in out.splitlines():
@@ -241,6 +257,9 @@ def analyse(script, rc, out, err):
             elif "unlock-by-non-owner S" in what: fin = "newfb-membership-race"
             elif ("destroy-locked-mutex" in what or "unlock-by-non-owner U" in what) and ti.get("A", {}).get("at") in ("mutex_unlock", "write"):
                 fin = "iterator-ref-race"
+            elif "lock-of-destroyed-mutex" in what or "destroy-locked-mutex" in what:
+                # a sync object of a client that rfbClientConnectionGone has already torn down
+                fin = "iterator-ref-race"
             add("mutex/thread misuse: " + what, fin, "\n".join(threads))
         elif t[0] == "sanitizer-abort" and not a:
             add("sanitizer abort without report", None, err[-1500:])
@@ -341,7 +360,7 @@ def run(ctx):
                 txt = open(os.path.join(CORPUS, f)).read()
                 m = re.search(r"^# expect: (\S+)", txt, re.M)
                 scripts.append(("corpus/" + f, txt, m.group(1) if m else "ok"))
-        n = 170 if ctx.tier == "quick" else 4000
+        n = 900 if ctx.tier == "quick" else 12000
         for k in range(n):
             r = ctx.rng.random()
             if r < 0.80: scripts.append(("gen", gen_scenario(ctx.rng, base_guards), None))
@@ -351,8 +370,7 @@ def run(ctx):
 
     def one(item):
         name, sc, exp = item
-        rc, out, err = ctx.run_lines(h, sc, timeout=200, env={"ASAN_OPTIONS": "detect_leaks=1:abort_on_error=0"})
-        return rc, "\n".join(out), err
+        return run_harness(h, sc)
     results = common.pmap(one, scripts)
     fails, samples, seen = [], [], set()
     dist = {"kinds": collections.Counter(), "modes": collections.Counter(), "listen": collections.Counter(),
